@@ -224,6 +224,23 @@ CLAIMED['C07'] = dict(
     technique='contract-based deductive verification: loop invariant with ghost stream state, assume-guarantee link '
               'to the sender contract of C06, z3/cvc5')
 
+CLAIMED['C15'] = dict(
+    text='Deductive proof per function along the path of a C-STORE, composed by contracts (no whole-stack run): storage_scu '
+         '(data set in memory: request carries the data set\'s UIDs, the caller\'s message id, the data set encoded with '
+         'the negotiated transfer syntax flags, on the given context; data set in a file: UIDs from the file meta, the '
+         'open file positioned exactly at the first data-set byte on both paths of the instance-UID fallback; returned '
+         'status = the peer\'s); C06/C07 obligations carry the bytes (fragmentation for both sources, reassembly for both '
+         'sinks); storage_scp (handler gets the received object and the context exactly once while the file is open, file '
+         'closed afterwards, response status = handler\'s or C000 on EventHandlingError); _get_storage_file over an '
+         'arbitrary file-system predicate: the one file opened for writing did not exist (loop exit condition), '
+         'write_meta gets the negotiated transfer syntax, start 0.',
+    ref='4/C15',
+    note=TRUST + 'end-to-end = composition of C06, C07, C17 and the clauses here (the composition itself is an '
+         'argument, not a machine-checked run over TCP and threads); pydicom reader/writer fidelity external; no '
+         'concurrent writer into the storage directory; termination of the uniquifying loop assumed',
+    technique='contract-based deductive verification: per-function postconditions, stream positions as byte-sequence '
+              'equalities, file-system predicate, z3/cvc5')
+
 NOT_YET = {
 }
 
